@@ -110,6 +110,8 @@ def run(ctx):
         ctx.guard(additive, ctx, base, ctx.facts('derive'), 'derive', allowed={})
     for col in ('dull', 'bright'):
         ctx.guard(colour, ctx, base, ctx.facts(col), col)
+        import c08, c11
+        ctx.guard(c08.keep_only, ctx, lambda col=col: c11.colour_detection(ctx, col, ctx.facts(col)), lambda o: True, 'C.colour')
     ctx.guard(inert, ctx, base, ctx.facts('ac'), 'ac')
     ctx.guard(family, ctx, ctx.facts('ac'), 'ac')
     ctx.guard(live_pure_total, ctx, ctx.facts('ac'), 'ac')
